@@ -122,12 +122,92 @@ def installed (w : World) (f : FnId) (pre snaps posts : List Nat) : World :=
     checkers := w1.checkers.map (fun p => if p.1 == f then
       (f, { pre := w1.heap.length, snaps := w1.heap.length + 1, posts := w1.heap.length + 2 }) else p) }
 
+/-! ### `copyCells`: fresh cells with the contents of the given ones -/
+
+theorem copyCells_nil (w : World) : copyCells w [] = (w, []) := rfl
+
+theorem copyCells_cons (w : World) (r : Ref) (rest : List Ref) :
+    copyCells w (r :: rest) =
+      ((copyCells { w with heap := (w.heap.alloc (w.heap.get r)).1 } rest).1,
+       w.heap.length :: (copyCells { w with heap := (w.heap.alloc (w.heap.get r)).1 } rest).2) := rfl
+
+/-- everything but the heap is untouched -/
+theorem copyCells_fields (w : World) (rs : List Ref) :
+    (copyCells w rs).1.checkers = w.checkers ∧ (copyCells w rs).1.classes = w.classes ∧
+    (copyCells w rs).1.snapNames = w.snapNames ∧ (copyCells w rs).1.hookCalls = w.hookCalls ∧
+    (copyCells w rs).1.invCheckOn = w.invCheckOn := by
+  induction rs generalizing w with
+  | nil => exact ⟨rfl, rfl, rfl, rfl, rfl⟩
+  | cons r rest ih => rw [copyCells_cons]; exact ih _
+
+theorem copyCells_checker? (w : World) (rs : List Ref) (f : FnId) :
+    (copyCells w rs).1.checker? f = w.checker? f := by
+  simp only [World.checker?, (copyCells_fields w rs).1]
+
+theorem copyCells_length (w : World) (rs : List Ref) :
+    (copyCells w rs).1.heap.length = w.heap.length + rs.length := by
+  induction rs generalizing w with
+  | nil => rfl
+  | cons r rest ih =>
+    rw [copyCells_cons]
+    simp only [ih, Heap.length_alloc, List.length_cons]
+    omega
+
+theorem copyCells_hpres (w : World) (rs : List Ref) : HPres w.heap (copyCells w rs).1.heap := by
+  induction rs generalizing w with
+  | nil => exact HPres.refl _
+  | cons r rest ih =>
+    rw [copyCells_cons]
+    exact (HPres.alloc w.heap (w.heap.get r)).trans
+      (ih { w with heap := (w.heap.alloc (w.heap.get r)).1 })
+
+/-- the copies are the consecutive new indices -/
+theorem copyCells_snd (w : World) (rs : List Ref) :
+    (copyCells w rs).2 = List.range' w.heap.length rs.length := by
+  induction rs generalizing w with
+  | nil => rfl
+  | cons r rest ih =>
+    rw [copyCells_cons]
+    simp only [ih, Heap.length_alloc, List.length_cons, List.range'_succ]
+
+theorem copyCells_snd_length (w : World) (rs : List Ref) : (copyCells w rs).2.length = rs.length := by
+  rw [copyCells_snd, List.length_range']
+
+theorem copyCells_snd_mem (w : World) (rs : List Ref) (r : Nat) (h : r ∈ (copyCells w rs).2) :
+    w.heap.length ≤ r ∧ r < (copyCells w rs).1.heap.length := by
+  rw [copyCells_snd, List.mem_range'_1] at h
+  rw [copyCells_length]
+  exact h
+
+/-- the copies hold what the originals held (for references into the heap) -/
+theorem copyCells_contents (w : World) (rs : List Ref) (h : ∀ r ∈ rs, r < w.heap.length) :
+    (copyCells w rs).2.map (copyCells w rs).1.heap.get = rs.map w.heap.get := by
+  induction rs generalizing w with
+  | nil => rfl
+  | cons r rest ih =>
+    rw [copyCells_cons]
+    simp only [List.map_cons]
+    have hp := copyCells_hpres { w with heap := (w.heap.alloc (w.heap.get r)).1 } rest
+    have hlt : w.heap.length < (w.heap.alloc (w.heap.get r)).1.length := by
+      rw [Heap.length_alloc]; exact Nat.lt_succ_self _
+    congr 1
+    · rw [hp.1 _ hlt]
+      exact Heap.get_alloc_self _ _
+    · rw [ih _ (fun x hx => Nat.lt_trans (h x (List.mem_cons_of_mem _ hx)) hlt)]
+      exact List.map_congr_left (fun x hx =>
+        Heap.get_alloc_lt _ _ _ (h x (List.mem_cons_of_mem _ hx)))
+
+theorem copyCells_frame (w : World) (rs : List Ref) : Frame (fun _ => False) w (copyCells w rs).1 :=
+  ⟨copyCells_hpres w rs, (copyCells_fields w rs).2.1, (copyCells_fields w rs).2.2.2.1,
+   fun f _ => copyCells_checker? w rs f⟩
+
 theorem decorateOne_cases (w w' : World) (key : String) (f : FnId) (inh hv : Bool)
     (bPre bSnaps bPosts : List Nat)
     (h : decorateOne w key f inh (hv, bPre, bSnaps, bPosts) = .ok w') :
     (w' = w ∧ (inh = false ∨
         ((bPre ++ ownPre w f).isEmpty = true ∧ (bPosts ++ ownPosts w f).isEmpty = true))) ∨
-    w' = installed w f (bPre ++ ownPre w f) (bSnaps ++ ownSnaps w f) (bPosts ++ ownPosts w f) := by
+    w' = installed (copyCells w bPre).1 f ((copyCells w bPre).2 ++ ownPre w f) (bSnaps ++ ownSnaps w f)
+          (bPosts ++ ownPosts w f) := by
   unfold decorateOne at h
   cases hck : w.checker? f <;> simp only [hck, ownPre, ownSnaps, ownPosts] at h ⊢ <;>
   · split at h
@@ -141,8 +221,16 @@ theorem decorateOne_cases (w w' : World) (key : String) (f : FnId) (inh hv : Boo
         · split at h
           · next he =>
             left
+            have hb : bPre = [] := by
+              have h1 : (copyCells w bPre).2 = [] := by
+                simp only [Bool.and_eq_true, List.isEmpty_iff, List.append_eq_nil_iff] at he
+                exact he.1.1
+              have h2 := copyCells_snd_length w bPre
+              rw [h1] at h2
+              exact List.eq_nil_of_length_eq_zero h2.symm
+            subst hb
             refine ⟨(Except.ok.inj h).symm, Or.inr ?_⟩
-            simpa using he
+            simpa [copyCells_nil] using he
           · right
             rw [← Except.ok.inj h]
             simp only [installed, Heap.alloc_snd, Heap.length_alloc]
@@ -188,7 +276,7 @@ theorem decorateOne_frame (w w' : World) (key : String) (f : FnId) (inh : Bool)
   obtain ⟨hv, bPre, bSnaps, bPosts⟩ := base
   rcases decorateOne_cases w w' key f inh hv bPre bSnaps bPosts h with ⟨rfl, _⟩ | rfl
   · exact Frame.refl _ _
-  · exact installed_frame _ _ _ _ _
+  · exact ((copyCells_frame w bPre).mono (fun _ hf => hf.elim)).trans (installed_frame _ _ _ _ _)
 
 /-! ### `decorateMember` and the namespace pass -/
 
